@@ -544,7 +544,7 @@ pub mod handler {
         ensures
             store::mc_frame(old(self).storage, final(self).storage), // @ob C06 handler.add_replace.frame
             *final(response_header) == resp_header(r), // @ob C11 handler.add_replace.header_out
-            loud_post(if request.header.opcode == 0x02 || request.header.opcode == 0x12 { Base::Add } else { Base::Replace }, payload(rv_set(RK::Set, request)), *old(response_header), old(self).storage, final(self).storage, r), // @ob C06,C02,C11,C19,C05 handler.add_replace.loud_post
+            loud_post(if request.header.opcode == 0x02 || request.header.opcode == 0x12 { Base::Add } else { Base::Replace }, payload(rv_set(RK::Set, request)), *old(response_header), old(self).storage, final(self).storage, r), // @ob C06,C02,C11,C19,C05,C01 handler.add_replace.loud_post
 //@endfn
 
 //@fn memcache_server/handler.rs | impl BinaryHandler | is_add_command | ret=r | safety=C10
@@ -558,7 +558,7 @@ pub mod handler {
         ensures
             store::mc_frame(old(self).storage, final(self).storage), // @ob C06 handler.append_prepend.frame
             *final(response_header) == resp_header(r), // @ob C11 handler.append_prepend.header_out
-            loud_post(if append_req.header.opcode == 0x0e || append_req.header.opcode == 0x19 { Base::Append } else { Base::Prepend }, payload(rv_app(RK::Append, append_req)), *old(response_header), old(self).storage, final(self).storage, r), // @ob C06,C02,C11,C19,C05 handler.append_prepend.loud_post
+            loud_post(if append_req.header.opcode == 0x0e || append_req.header.opcode == 0x19 { Base::Append } else { Base::Prepend }, payload(rv_app(RK::Append, append_req)), *old(response_header), old(self).storage, final(self).storage, r), // @ob C06,C02,C11,C19,C05,C01 handler.append_prepend.loud_post
 //@endfn
 
 //@fn memcache_server/handler.rs | impl BinaryHandler | is_append | ret=r | safety=C10
@@ -970,7 +970,7 @@ pub mod random_policy {
             rp_frame(*old(self), *final(self)), // @ob C15 policy.set.frame
             // C01: with the limit not reached the store behaves exactly as without the policy
             usage(*old(self)) <= old(self).memory_limit ==> post_set(old(self).store.memory@, old(self).store.cas_id.val(), old(self).store.timer.now(), key@, record.value@, record.header.flags, record.header.time_to_live, record.header.cas,
-                 r is Ok, r is Err && r->Err_0 == CacheError::KeyExists, r is Err && r->Err_0 == CacheError::NotFound, if r is Ok { r->Ok_0.cas } else { 0 }, final(self).store.memory@, final(self).store.cas_id.val()), // @ob C01,C15,C08 policy.set.no_pressure_same_as_store
+                 r is Ok, r is Err && r->Err_0 == CacheError::KeyExists, r is Err && r->Err_0 == CacheError::NotFound, if r is Ok { r->Ok_0.cas } else { 0 }, final(self).store.memory@, final(self).store.cas_id.val()), // @ob C01,C15,C08,C02,C05,C06,C07 policy.set.no_pressure_same_as_store
             // C15 accounting, one obligation per case (no memory pressure: nothing evicted)
             usage(*old(self)) <= old(self).memory_limit && r is Ok && !old(self).store.memory@.contains_key(key@)
                 ==> usage(*final(self)) == usage(*old(self)) + 24 + record.value@.len(), // @ob C15 policy.set.new_key_accounted
@@ -986,7 +986,7 @@ pub mod random_policy {
             forall|k: Seq<u8>| #[trigger] old(self).store.memory@.contains_key(k) ==> size_of_item(old(self).store.memory@[k]) <= usage(*old(self)),   // ASSUMED: no single record is charged more than the total
         ensures
             rp_frame(*old(self), *final(self)), // @ob C15 policy.delete.frame
-            post_delete(old(self).store.memory@, key@, header.cas, r is Ok, r is Err && r->Err_0 == CacheError::NotFound, r is Err && r->Err_0 == CacheError::KeyExists, final(self).store.memory@), // @ob C08 policy.delete.post_delete
+            post_delete(old(self).store.memory@, key@, header.cas, r is Ok, r is Err && r->Err_0 == CacheError::NotFound, r is Err && r->Err_0 == CacheError::KeyExists, final(self).store.memory@), // @ob C08,C02 policy.delete.post_delete
             r is Ok ==> usage(*final(self)) == usage(*old(self)) - size_of_item(old(self).store.memory@[key@]), // @ob C15 policy.delete.ok_accounted
             r is Err ==> usage(*final(self)) == usage(*old(self)), // @ob C15 policy.delete.err_accounted
 //@endfn
